@@ -235,8 +235,7 @@ class Result:
                 json.dump(vv, fh, indent=1, default=str)
             print('%s [%s] %s: %s' % (self.prop, v['rule'], v['site'], v['msg']))
             print('VIOLATION property=%s replay=%s' % (self.prop, path))
-            if code == 0:
-                code = 1
+            code = 1      # a decided violation stands even when another part of the analysis could not be completed
         cov = dict(self.cov)
         cov.update({
             'explanation': explanation,
